@@ -253,6 +253,8 @@ def _valid_op(op):
                 return False
             if sp.get('flag') and sp.get('fill') is None:
                 return False
+            if sp.get('fill') in ('+', '-') and not sp.get('flag'):
+                return False
             if sp.get('width') is not None and (not isinstance(sp['width'], int) or sp['width'] < 0):
                 return False
             if sp.get('ansi') is not None and (not isinstance(sp['ansi'], list) or not sp['ansi']):
